@@ -24,6 +24,7 @@ func init() {
 			"J3 stale attempts are ignored (Metadata.cache) and journalFile carries the uniquifier whenever one is set, " +
 			"J4 routing: a notification is applied only to an object that find/getFork/getChunk returned non-nil; getFork's index fast path is bounds-checked and its name search compares the whole remainder, " +
 			"J5 the key encoders hand out the key unencoded only where the dominating guards exclude '%' and '/' (search calls with constant needles; byte-wise predicate helpers are folded per byte value), everything else they hand out is the result of url.PathEscape. " +
+			"J4 identity: a fork taken from Node.forks by its parsed number is returned only after its own name was compared with the requested one; J1 samples include call ids that begin with fork/chnk. " +
 			"NOT decided: injectivity of nested mixed array/map fork numbering (arithmetic on run-time lengths), collisions between -u<uniq> directories.",
 		Assumptions: append([]string{"net/url.PathEscape escapes '%', '/', and every byte outside the RFC 3986 unreserved/sub-delims set (evaluated from the Go standard library the checker is built with)"}, commonAssumptions...),
 	}
@@ -105,6 +106,7 @@ func constStringsIn(fn *ssa.Function) []string {
 func runC11(c *an.Ctx) {
 	p := c.P
 	ruleJ5(c)
+	ruleJ7(c)
 	// ---------------- J1 ----------------
 	repl := globalInitCall(p, pkgCore, "encodeJournalName")
 	reCall := globalInitCall(p, pkgCore, "jobJournalRe")
@@ -560,6 +562,25 @@ func runC11(c *an.Ctx) {
 					}
 				case *ssa.Convert:
 					return derives(x.X, want, d+1)
+				case *ssa.Parameter:
+					// inside a predicate helper (`f.hasJournalIndex(prefixLen, index)`): what getFork passes for it
+					h := x.Parent()
+					if h == nil || h == getFork || h.Parent() == getFork {
+						return false
+					}
+					idx := -1
+					for i, prm := range h.Params {
+						if prm == x {
+							idx = i
+						}
+					}
+					for _, g := range an.WithAnon(getFork) {
+						for _, cs := range callsTo(g, h) {
+							if idx >= 0 && idx < len(cs.Common().Args) && derives(cs.Common().Args[idx], want, d+1) {
+								return true
+							}
+						}
+					}
 				}
 				return false
 			}
@@ -574,7 +595,10 @@ func runC11(c *an.Ctx) {
 				}
 				return false
 			}
-			isReq := func(v ssa.Value) bool { return v == ssa.Value(getFork.Params[1]) }
+			// the parameter itself, or a load of its cell when a closure captures it
+			isReq := func(v ssa.Value) bool {
+				return v == ssa.Value(getFork.Params[1]) || an.Path(v) == an.Path(getFork.Params[1])
+			}
 			named, _ := an.GuardedBy(ret, func(r an.Rel) bool {
 				if r.Op != token.EQL {
 					return false
@@ -589,15 +613,81 @@ func runC11(c *an.Ctx) {
 		})
 		// string search compares the whole remainder with ==
 		okCmp := false
-		an.Instrs(getFork, func(in ssa.Instruction) {
-			b, ok := in.(*ssa.BinOp)
-			if !ok || b.Op != token.EQL || b.X.Type().String() != "string" {
-				return
-			}
-			if sl, ok := b.X.(*ssa.Slice); ok && sl.High == nil && b.Y == ssa.Value(getFork.Params[1]) {
-				okCmp = true
-			}
-		})
+		fqnameField := p.Field(pkgCore, "Fork", "fqname")
+		var scanFns []*ssa.Function
+		scanFns = append(scanFns, an.WithAnon(getFork)...)
+		for _, g := range an.WithAnon(getFork) {
+			an.Instrs(g, func(in ssa.Instruction) {
+				if cl := an.AsCallAny(in); cl != nil {
+					if h := cl.Common().StaticCallee(); h != nil && h.Blocks != nil && h.Pkg == getFork.Pkg && len(h.Blocks) <= 4 {
+						scanFns = append(scanFns, h)
+					}
+				}
+			})
+		}
+		for _, g := range scanFns {
+			an.Instrs(g, func(in ssa.Instruction) {
+				b, ok := in.(*ssa.BinOp)
+				if !ok || b.Op != token.EQL || b.X.Type().String() != "string" {
+					return
+				}
+				sl, ok := b.X.(*ssa.Slice)
+				if !ok || sl.High != nil {
+					return
+				}
+				// compared with the requested name: getFork's parameter, or the helper's parameter that receives it
+				if b.Y == ssa.Value(getFork.Params[1]) {
+					okCmp = true
+				}
+				if prm, isP := b.Y.(*ssa.Parameter); isP && g != getFork && fqnameField != nil && an.LoadsField(sl.X, fqnameField) {
+					idx := -1
+					for i, q := range g.Params {
+						if q == prm {
+							idx = i
+						}
+					}
+					for _, host := range an.WithAnon(getFork) {
+						for _, cs := range callsTo(host, g) {
+							if idx >= 0 && idx < len(cs.Common().Args) {
+								a := cs.Common().Args[idx]
+								if a == ssa.Value(getFork.Params[1]) || an.Path(a) == an.Path(getFork.Params[1]) {
+									okCmp = true
+								}
+								// captured by a closure of getFork
+								if u, isU := a.(*ssa.UnOp); isU {
+									if fv, isFV := u.X.(*ssa.FreeVar); isFV && fv.Name() == getFork.Params[1].Name() {
+										okCmp = true
+									}
+								}
+							}
+						}
+					}
+				}
+			})
+		}
+		// ... and nowhere by prefix/substring
+		for _, g := range scanFns {
+			an.Instrs(g, func(in ssa.Instruction) {
+				cl, ok := in.(*ssa.Call)
+				if !ok || cl.Call.StaticCallee() == nil || cl.Call.StaticCallee().Pkg == nil || cl.Call.StaticCallee().Pkg.Pkg.Path() != "strings" {
+					return
+				}
+				switch cl.Call.StaticCallee().Name() {
+				case "HasPrefix", "HasSuffix", "Contains", "Index":
+				default:
+					return
+				}
+				for _, a := range cl.Call.Args {
+					v := a
+					if sl, isSl := v.(*ssa.Slice); isSl {
+						v = sl.X
+					}
+					if fqnameField != nil && an.LoadsField(v, fqnameField) {
+						okCmp = false
+					}
+				}
+			})
+		}
 		c.Check("J4", "fork-name-compared-whole@(*Node).getFork", getFork.Pos(), okCmp, "the fork name search must compare the entire remainder of the fork's journal name with the parsed id (no prefix match)")
 	}
 }
